@@ -181,18 +181,22 @@ Proof. vm_compute. reflexivity. Qed.
    (which ignores opacity) evaluates it *)
 Opaque drift_tables.
 Lemma current_checks_split :
-  tables_okb drift_tables = true /\ steps_okb d_tables = true /\ witness_okb d_tables = true.
+  tables_okb drift_tables = true /\ steps_okb d_tables = true /\ witness_okb d_tables = true /\
+  max_step_okb d_tables = true.
 Proof.
   pose proof current_checks_true as H. unfold current_checks in H.
+  apply andb_true_iff in H. destruct H as [H H4].
   apply andb_true_iff in H. destruct H as [H H3]. apply andb_true_iff in H. destruct H as [H1 H2].
-  split; [exact H1|split; [exact H2|exact H3]].
+  split; [exact H1|split; [exact H2|split; [exact H3|exact H4]]].
 Qed.
 Lemma tables_okb_current_lemma : tables_okb drift_tables = true.
 Proof. exact (proj1 current_checks_split). Qed.
 Lemma steps_okb_current : steps_okb d_tables = true.
 Proof. exact (proj1 (proj2 current_checks_split)). Qed.
 Lemma witness_okb_current : witness_okb d_tables = true.
-Proof. exact (proj2 (proj2 current_checks_split)). Qed.
+Proof. exact (proj1 (proj2 (proj2 current_checks_split))). Qed.
+Lemma max_step_okb_current : max_step_okb d_tables = true.
+Proof. exact (proj2 (proj2 (proj2 current_checks_split))). Qed.
 
 Lemma table_ok_current_lemma : tables_ok fmt64 r_tables.
 Proof.
@@ -248,6 +252,19 @@ Proof.
   specialize (H Hin). apply orb_true_iff in H. destruct H as [H|H].
   - apply dy_lt_q_R in H. exact H.
   - exfalso. apply Hk, seg_mem_In, H.
+Qed.
+
+(* every tabulated step of the current tables is < 0.66 mm *)
+Lemma max_knot_step_current_lemma i j sd a b :
+  nth_error d_tables i = Some sd -> nth_error (fst sd) j = Some a -> nth_error (fst sd) (S j) = Some b ->
+  dyR (dk_radius a) - dyR (dk_radius b) < 66 / 100000.
+Proof.
+  intros Hs Ha Hb. pose proof max_step_okb_current as H. unfold max_step_okb in H. rewrite forallb_forall in H.
+  specialize (H ((N.of_nat i, N.of_nat j), dy_sub (dk_radius a) (dk_radius b))).
+  cbn [fst snd] in H. rewrite <- dy_sub_R. apply dy_lt_q_R, H.
+  unfold all_steps. apply (all_steps_from_In 0 d_tables i sd); [exact Hs|].
+  rewrite N.add_0_l. pose proof (steps_from_In (N.of_nat i) 0 (fst sd) j a b Ha Hb) as X.
+  rewrite N.add_0_l in X. exact X.
 Qed.
 
 (* ---------- lemmas pinned in Props/C18.v (the abstract section instantiated with Flocq's rounding) ---------- *)
@@ -347,6 +364,26 @@ Lemma half_mm_outside_known_lemma m i j sd a b z t1 t2 r1 c1 r2 c2 :
 Proof.
   intros Hs Ha Hb Hk Hsl H1 H12 H2 E1 E2.
   pose proof (steps_current_lemma i j sd a b Hs Ha Hb Hk) as Hstep.
+  set (s := (map dknotR (fst sd), dyR (snd sd))) in *.
+  assert (knot_at s j = dknotR a) as Ka by (apply nth_map_error, Ha).
+  assert (knot_at s (S j) = dknotR b) as Kb by (apply nth_map_error, Hb).
+  assert (S j < length (fst s))%nat as Hlen.
+  { cbn [fst s]. rewrite map_length. apply nth_error_Some. congruence. }
+  pose proof (step_bound_lemma m r_tables z s j (S j) t1 t2 r1 c1 r2 c2 table_ok_current_lemma Hsl) as X.
+  rewrite Ka, Kb in X. rewrite !dknotR_time, !dknotR_radius in X.
+  specialize (X ltac:(lia) Hlen H1 H12 H2 E1 E2). lra.
+Qed.
+
+(* on the current tables: lookups inside one tabulated segment differ by less than 0.66 mm (every segment) *)
+Lemma step_lt_066_mm_lemma m i j sd a b z t1 t2 r1 c1 r2 c2 :
+  nth_error d_tables i = Some sd -> nth_error (fst sd) j = Some a -> nth_error (fst sd) (S j) = Some b ->
+  is_slice r_tables z (map dknotR (fst sd), dyR (snd sd)) ->
+  dyR (dk_time a) <= t1 -> t1 <= t2 -> t2 <= dyR (dk_time b) ->
+  lookupR m r_tables z t1 = Ok (r1, c1) -> lookupR m r_tables z t2 = Ok (r2, c2) ->
+  0 <= r1 - r2 < 66 / 100000.
+Proof.
+  intros Hs Ha Hb Hsl H1 H12 H2 E1 E2.
+  pose proof (max_knot_step_current_lemma i j sd a b Hs Ha Hb) as Hstep.
   set (s := (map dknotR (fst sd), dyR (snd sd))) in *.
   assert (knot_at s j = dknotR a) as Ka by (apply nth_map_error, Ha).
   assert (knot_at s (S j) = dknotR b) as Kb by (apply nth_map_error, Hb).
